@@ -21,9 +21,13 @@ do_crypt (const char *p, const char *s, struct crypt_data *d, int *fatal)
   char *r = 0;
   /* arbitrary prior contents of the object (a different pattern per object): the answer must not depend on them */
   memset (d, d == d1 ? 0xA5 : 0x3B, sizeof *d);
+  /* arbitrary errno on entry (what an earlier, unrelated call left behind): the answer must not depend on it either */
+  static const int entry_errno[4] = { 0, ERANGE, EINVAL, ENOMEM };
+  int ee = entry_errno[(vh_hash_str (s, 77) + (d == d1 ? 0u : 1u)) % 4];
   int k = VH_TRY (0);
   if (k == 0)
     {
+      errno = ee;
       r = crypt_rn (p, s, d, sizeof *d);
       VH_END ();
     }
